@@ -122,6 +122,14 @@ class VInt (α ι : Type) where
 instance : VInt Float32 Int32 := ⟨fun x => Float32.ofInt x.toInt⟩
 instance : VInt Float Int32 := ⟨fun x => Float.ofInt x.toInt⟩
 
+/-- a floating literal that is not an integer, `m * 10^-e` (clang's round-trip decimal text of the constant).  The present source has
+    none in the translated routines (their constants are `0.`, `1.`, `50.`, `500.`): this exists so that a modified tree with another
+    constant still yields a running model, i.e. a concrete failing input rather than a translator failure. -/
+class VSci (α : Type) where
+  sci : Nat → Nat → α
+instance : VSci Float := ⟨fun m e => OfScientific.ofScientific m true e⟩
+instance : VSci Float32 := ⟨fun m e => OfScientific.ofScientific m true e⟩
+
 /-- `int16_t` / `int8_t` / `char` cells are only moved (Copy, Reverse): no arithmetic -/
 instance instCElemUInt8 : CElem UInt8 where
   lt a b := decide (a < b)
